@@ -222,6 +222,8 @@ def real_tokens(repo, sec, log):
             ss = rtok.apply_cfg_digit_expr(ss, log, label)
         elif r == "R27":
             ss = rtok.apply_inline_closure(ss, log, label)
+        elif r == "R39":
+            ss = rtok.apply_cut_loop(ss, log, label)
         else:
             ss, n = rtok.RULES[r].apply(ss, log, label)
     if "rename" in kv:
